@@ -29,8 +29,9 @@
 (* smallest power of any                                                                                              *)
 (* element phase in the generated networks is 420 micro-Mvar, so a dropped / doubled / mis-signed contribution is far  *)
 (* outside every tolerance.  With several ext_grids the harness gives row k the set point vm = 1.02 - 0.0003 k p.u.,   *)
-(* va = 0.004 k degree, so that every ext_grid carries a different power (>= 10000 micro-MW apart): rows exchanged or   *)
-(* booked at the wrong bus are far outside every tolerance as well.                                                   *)
+(* va = 0.004 k degree, so that any two in-service ext_grids carry different powers (per phase >= 79000 micro-MW or     *)
+(* micro-Mvar apart over the thorough slice of seed 0): rows exchanged or booked at the wrong bus are far outside      *)
+(* every tolerance as well.                                                                                           *)
 (* Fused buses (closed bus-bus switch): the nodal balance is a statement about the NODE (all elements, branch          *)
 (* terminals and ext_grids of all its buses); res_bus_3ph p/q stay per pandapower bus (its own elements).             *)
 EXTENDS Phase3Def, Fix, Json, IOUtils
